@@ -10,7 +10,6 @@ CONSTANTS
   OriginIds = {"o1","o2","o3"}
   Limits = {1,2,3,4,5,50}
   Policies = {"default","completeness"}
-  SelfModes = {TRUE,FALSE}
 INVARIANT HTypeOK Deadlines ObsEntries ObsDeadlines ObsClock ObsIndex
 INVARIANT EmptyWhenComplete NoDup NoSelf Bounded Ordered Truthful HandConforms
 PROPERTY TForgetOnlyExpired TAnnounceStores
